@@ -30,6 +30,7 @@ func runC18(c *fw.Ctx) {
 	r182(c)
 	r182control(c)
 	r183(c)
+	r184(c)
 }
 
 func funcLabel(fn *ssa.Function) string {
@@ -306,4 +307,198 @@ func r183(c *fw.Ctx) {
 	if n == 0 {
 		c.OK(rule, "no-goroutines-or-channels", token.NoPos, "the builder packages start no goroutine and use no channel")
 	}
+}
+
+// R18.4: an object is not used after it was given back to a sync.Pool. Once Put, the object (and every
+// buffer reachable from it) belongs to whichever goroutine Gets it next - another build. A function that
+// releases a pooled object (calls sync.Pool.Put on its receiver/parameter, like (*printer).free) may be
+// called only as the last use of that object: on every path, no later statement mentions the released
+// variable or a pointer-like local that was derived from it before the release (result := p.output).
+// A deferred release runs after everything else and is fine.
+func r184(c *fw.Ctx) {
+	const rule = "R18.4"
+	// releasers: functions of the analysed packages that Put one of their parameters / their receiver
+	type rel struct{ param int } // -1 = receiver
+	releasers := map[*types.Func]rel{}
+	for _, fd := range c.Decls() {
+		p := c.PkgOfDecl(fd)
+		if fd.Body == nil {
+			continue
+		}
+		info := p.TypesInfo
+		fn, _ := info.Defs[fd.Name].(*types.Func)
+		if fn == nil {
+			continue
+		}
+		ast.Inspect(fd.Body, func(m ast.Node) bool {
+			call, ok := m.(*ast.CallExpr)
+			if !ok || !isFunc(callee(info, call), "sync", "Pool.Put") || len(call.Args) != 1 {
+				return true
+			}
+			id, ok := unparen(call.Args[0]).(*ast.Ident)
+			if !ok {
+				return true
+			}
+			o := info.Uses[id]
+			if fd.Recv != nil && len(fd.Recv.List) == 1 && len(fd.Recv.List[0].Names) == 1 && info.Defs[fd.Recv.List[0].Names[0]] == o {
+				releasers[fn] = rel{-1}
+			}
+			k := 0
+			for _, f := range fd.Type.Params.List {
+				for _, nm := range f.Names {
+					if info.Defs[nm] == o {
+						releasers[fn] = rel{k}
+					}
+					k++
+				}
+			}
+			return true
+		})
+	}
+	nSites := 0
+	for _, fd := range c.Decls() {
+		p := c.PkgOfDecl(fd)
+		if fd.Body == nil {
+			continue
+		}
+		info := p.TypesInfo
+		// release sites in this function
+		type site struct {
+			call *ast.CallExpr
+			obj  types.Object
+		}
+		var sites []site
+		deferred := map[*ast.CallExpr]bool{}
+		ast.Inspect(fd.Body, func(m ast.Node) bool {
+			if ds, ok := m.(*ast.DeferStmt); ok {
+				deferred[ds.Call] = true
+			}
+			call, ok := m.(*ast.CallExpr)
+			if !ok {
+				return true
+			}
+			fn, _ := callee(info, call).(*types.Func)
+			var arg ast.Expr
+			if r, ok := releasers[fn]; ok {
+				if r.param == -1 {
+					if se, ok := unparen(call.Fun).(*ast.SelectorExpr); ok {
+						arg = se.X
+					}
+				} else if r.param < len(call.Args) {
+					arg = call.Args[r.param]
+				}
+			} else if isFunc(fn, "sync", "Pool.Put") && len(call.Args) == 1 {
+				arg = call.Args[0]
+			}
+			if arg == nil {
+				return true
+			}
+			if id, ok := unparen(arg).(*ast.Ident); ok {
+				if o := info.Uses[id]; o != nil {
+					sites = append(sites, site{call, o})
+				}
+			}
+			return true
+		})
+		if len(sites) == 0 {
+			continue
+		}
+		fname := declName(c, fd)
+		var paths []cfgPath
+		for i, s := range sites {
+			nSites++
+			key := sprintf("%s/release#%d(%s)", fname, i+1, s.obj.Name())
+			if deferred[s.call] {
+				c.OK(rule, key, s.call.Pos(), "released by a deferred call: after every other use")
+				continue
+			}
+			if paths == nil {
+				var trunc bool
+				paths, trunc = enumPaths(info, fd.Body)
+				if trunc {
+					c.Undecided(rule, key+"/paths", fd.Pos(), "too many paths")
+					continue
+				}
+			}
+			bad := ""
+			var badPos token.Pos
+			for _, pa := range paths {
+				rel := -1
+				derived := map[types.Object]bool{}
+				mentions := func(n ast.Node) (bool, string) {
+					found, what := false, ""
+					ast.Inspect(n, func(m ast.Node) bool {
+						if id, ok := m.(*ast.Ident); ok {
+							if o := info.Uses[id]; o != nil && (o == s.obj || derived[o]) {
+								found, what = true, id.Name
+							}
+						}
+						return !found
+					})
+					return found, what
+				}
+				for i, nd := range pa.Nodes {
+					if rel < 0 {
+						// before the release: record pointer-like locals derived from the object
+						if as, ok := nd.(*ast.AssignStmt); ok && len(as.Lhs) == len(as.Rhs) {
+							for k, l := range as.Lhs {
+								if id, ok := unparen(l).(*ast.Ident); ok {
+									o := info.Defs[id]
+									if o == nil {
+										o = info.Uses[id]
+									}
+									if o == nil || o == s.obj {
+										continue
+									}
+									// storage taken from the object: a field / element / slice of it (not a call result)
+									rooted := false
+									e := unparen(as.Rhs[k])
+									for !rooted {
+										switch x := e.(type) {
+										case *ast.SelectorExpr:
+											e = unparen(x.X)
+											continue
+										case *ast.IndexExpr:
+											e = unparen(x.X)
+											continue
+										case *ast.SliceExpr:
+											e = unparen(x.X)
+											continue
+										case *ast.StarExpr:
+											e = unparen(x.X)
+											continue
+										case *ast.Ident:
+											if ro := info.Uses[x]; ro != nil && (ro == s.obj || derived[ro]) && e != unparen(as.Rhs[k]) {
+												rooted = true
+											}
+										}
+										break
+									}
+									if rooted {
+										switch o.Type().Underlying().(type) {
+										case *types.Pointer, *types.Slice, *types.Map, *types.Chan, *types.Interface, *types.Signature:
+											derived[o] = true
+										}
+									}
+								}
+							}
+						}
+						if nd.Pos() <= s.call.Pos() && s.call.End() <= nd.End() {
+							rel = i
+						}
+						continue
+					}
+					if m, what := mentions(nd); m && bad == "" {
+						bad, badPos = what, nd.Pos()
+					}
+				}
+			}
+			if badPos == token.NoPos {
+				badPos = s.call.Pos()
+			}
+			c.Check(bad == "", rule, key, badPos,
+				"%s (or storage taken from it before) is used after it was put back into the pool: `%s` at %s may be overwritten by another goroutine that got the object from the pool - a data race between independent builds", s.obj.Name(), bad, c.Position(badPos))
+		}
+	}
+	c.Floor(rule, "pool release sites", nSites, 1)
 }
